@@ -579,6 +579,10 @@ func Orchestrate(m *Monitor, tier string, seed int64, exe, exeRace string) int {
 	}
 
 	// evidence
+	if len(merged.Samples) == 0 && len(cases) > 0 {
+		b, _ := json.Marshal(map[string]any{"case": cases[0], "note": "no monitor-level sample was recorded in this run; this is the first case of the deterministic case list"})
+		merged.Samples = append(merged.Samples, b)
+	}
 	wall := time.Since(start).Seconds()
 	ev := map[string]any{
 		"property_id": m.ID,
